@@ -21,7 +21,9 @@ func quoteForms(name string) []string {
 var brokenInner = []string{"SELECT 1 ORDER x", "SELECT 1 GROUP x", "WITH", "SELECT", "1 +", "(", "x AS", "", "SELECT 1 UNION", "*", "x, ", "DISTINCT", "SELECT 1 LIMIT", "x ->", "[1,", "CASE WHEN",
 	"SELECT 1 FROM", "1 IN (", "INTERVAL", "x FROM y", "y, 1, ", "SELECT * FROM (SELECT", "SELECT 1", "x", "1, 2"}
 
-var callSuffixes = []string{" AS v", " v", ".x", "[1]", "::Int8", " + 1", "", " IN (1)", " BETWEEN 1 AND 2", " IS NULL", " OVER w", "(1)", " AS v, 2", " FILTER (WHERE 1)", ".1", " OVER (", " IGNORE NULLS", " EXCEPT x", ".1e5", ".99999999999999999999", ".1.2e3", ".0x1", " .5"}
+var callSuffixes = []string{" AS v", " v", ".x", "[1]", "::Int8", " + 1", "", " IN (1)", " BETWEEN 1 AND 2", " IS NULL", " OVER w", "(1)", " AS v, 2", " FILTER (WHERE 1)", ".1", " OVER (", " IGNORE NULLS", " EXCEPT x", ".1e5", ".99999999999999999999", ".1.2e3", ".0x1", " .5",
+	// parametric calls and their modifiers; a dot-number cut off at the end of the input
+	"(x) respect", "(x) ignore, 1", "(x) RESPECT NULLS", "(x) IGNORE NULLS OVER ()", "(x)(y)", ".1e", ".2E"}
 
 var callContexts = [][2]string{{"SELECT ", ""}, {"SELECT 1 WHERE ", ""}, {"SELECT * FROM ", ""}, {"SELECT 1 ORDER BY ", ""}, {"SELECT x, ", " FROM t"}, {"INSERT INTO t SELECT ", ""}, {"SELECT 1 FROM t JOIN ", " ON 1"},
 	{"ALTER TABLE t UPDATE a = ", " WHERE 1"}, {"CREATE TABLE t (a Int8 DEFAULT ", ")"}, {"SELECT 1 GROUP BY ", ""}}
@@ -31,7 +33,9 @@ var callContexts = [][2]string{{"SELECT ", ""}, {"SELECT 1 WHERE ", ""}, {"SELEC
 var exprShapes = func() []string {
 	atoms := []string{"1", "-1", "- -1", "-x", "x", "1.5", "-1.5", "'a'", "-'a'", "NULL", "-NULL", "f(x)", "-f(x)", "(1)", "-(1)", "(x)", "-(x)", "+1", "+x", "NOT x", "18446744073709551616", "-9223372036854775808",
 		"-9223372036854775809", "0x1F", "-0x1F", "1e3", "inf", "-inf", "nan", "true", "-true", "t.a", "-t.a", "a[1]", "t.1", "t.1.2", "x::Int8", "-1::Int8", "CAST(1 AS Int8)", "{p:UInt8}", "$$h$$", "INTERVAL 1 DAY",
-		"CASE WHEN 1 THEN 2 END", "(SELECT 1)", "-(SELECT 1)", "x -> x", "a + b", "-(a + b)", "a AND b", "x IN (1)", "x BETWEEN 1 AND 2", "x IS NULL", "*", "t.*", "COLUMNS('a')", "DATE '2020-01-01'", "[]", "()", "tuple()", "if(1, 2, 3)", "count(*)", "sum(x) OVER ()"}
+		"CASE WHEN 1 THEN 2 END", "(SELECT 1)", "-(SELECT 1)", "x -> x", "a + b", "-(a + b)", "a AND b", "x IN (1)", "x BETWEEN 1 AND 2", "x IS NULL", "*", "t.*", "COLUMNS('a')", "DATE '2020-01-01'", "[]", "()", "tuple()", "if(1, 2, 3)", "count(*)", "sum(x) OVER ()",
+		"quantile(0.5)(x)", "quantile(0.5)(x) respect", "any(x) RESPECT NULLS", "count(*, x) FILTER (WHERE y > 0)", "corr(a, b, c) FILTER (WHERE d)", "sum(a) FILTER (WHERE b)", "INTERVAL '2 years'", "INTERVAL '-3 day'",
+		"b'101'", "x'4142'", "0X10000000000000000", "'a\x00b'", "t.1e", "a.b.c", "1 IS NOT DISTINCT FROM 2"}
 	out := append([]string{}, atoms...)
 	for i, a := range atoms {
 		b := atoms[(i*7+3)%len(atoms)]
